@@ -84,7 +84,7 @@ def rule_typestate(rep: Report, repo: Repo):
     removals = set(map(id, memo.removals))
 
     PURE = {"isinstance", "issubclass", "str", "repr", "len", "type", "bool", "id", "hasattr"}
-    PURE_METHODS = {"startswith", "endswith"}
+    PURE_METHODS = {"startswith", "endswith", "get"}  # dict.get(key, default) of a hashable key cannot raise
 
     def may_raise(node):
         if id(node) in removals:
@@ -146,6 +146,19 @@ def rule_typestate(rep: Report, repo: Repo):
                       "a handler that completes normally would swallow the callback's exception",
                       repo.loc("series", h))
 
+    # T2b: a stored result stays: no removal of the key is reachable from the result store without an exception in between
+    for r in memo.result_stores:
+        key = memo.key_of(r)
+        for rn in g.node_of(r):
+            reach = g.reachable(rn.id, kinds={"n", "t", "f", "loop"})
+            hit = [m for m in nodes_for(memo.removals) if m.id in reach and m.id != rn.id and memo.key_of(m.ast) == key]
+            inst = f"{ANCHOR} T2b the evaluated element stored by `{norm(r)[:50]}` stays in the memo"
+            if hit:
+                rep.fail(RULE, inst.replace("stays in the memo", "can be removed again without any exception"),
+                         f"`{norm(hit[0].ast)[:60]}` (line {hit[0].lineno}) is reachable on a normal path after the store: such an element is "
+                         "evaluated anew at every request", repo.loc("series", hit[0].ast))
+            else:
+                rep.ok(RULE, inst, "removals are reachable only through an exception", repo.loc("series", r))
     # T3: the eval call is dominated by the "key not in memo" test
     tests = []
     for n in g.nodes:
@@ -269,9 +282,13 @@ def rule_memo_owner(rep: Report, repo: Repo):
                     rep.check(use in ("store", "read"), RULE, inst, "", where)
                 else:
                     rep.ok(RULE, inst, "owner method", where)
-            else:
+            elif cname == "BlockSeries" and dotted(node) == f"self.{MEMO_ATTR}":
                 rep.check(use == "read", RULE, inst,
                           "the memo may be mutated or aliased only inside BlockSeries.__init__/__getitem__/pop", where)
+            else:
+                rep.fail(RULE, inst + ": the memo of a series is accessed outside BlockSeries",
+                         "what has been evaluated so far becomes an input of the computation (results depend on the request history), or the memo "
+                         "is changed behind the series' back; use series[index] / `index in series`", where)
     rep.floor(RULE, "accesses of the memo attribute", n_sites, 4)
     # T5b: the element function of a series is called by BlockSeries.__getitem__ only -- that call is the one whose result is
     # memoised; `X.eval(...)` anywhere else computes the element again on every request and leaves no trace in the memo
